@@ -156,3 +156,28 @@ def as_kind(x, kind):
 def whole_sometimes(strategy):
     """Mix in whole-number values (so that the int / float32 representations above actually occur)."""
     return st.one_of(strategy, strategy, strategy.map(lambda v: float(round(v))))
+
+
+def sweeps(salt, build, n_quick, n_thorough):
+    """Stratified one-dimensional sweeps as an enumeration (see DESIGN 12, round 9).  build(rnd) -> [(weight, fn), ...]; fn maps
+    f in (0, 1) to a case.  Line k is walked on a lattice of weight x n points with a seeded phase; everything build() draws
+    comes from random.Random(f(VERIF_SEED)), so a run is a pure function of the seed and a failing lattice point is its own replay."""
+    def enum(tier, seed, shard, nshards):
+        import random
+        rnd = random.Random(1000003 * int(seed) + salt)
+        n0 = n_thorough if tier == "thorough" else n_quick
+        i = 0
+        for weight, fn in build(rnd):
+            n = max(1, int(n0 * weight))
+            ph = rnd.random()
+            for k in range(n):
+                if i % nshards == shard:
+                    yield fn((k + ph) / n)
+                i += 1
+    return enum
+
+
+def sweep_ellipsoid(rnd, invf_lo=150.0, invf_hi=400.0):
+    if rnd.random() < 0.5:
+        return SHIPPED_ELLIPSOIDS[rnd.randrange(4)]
+    return {"a": rnd.uniform(6.3e6, 6.4e6), "invf": rnd.uniform(invf_lo, invf_hi)}
